@@ -373,7 +373,7 @@ def structured_cases(r):
             for large in (0, 1):
                 cfg = C.rand_cfg(r, crc=crc, large=large)
                 hl = R.header_len(cfg["idw"], cfg["seqw"])
-                for body_len in (0, 1, 2, 3, 4, 5, 8, 9):
+                for body_len in range(0, 50):
                     body = bytes([C.DIRECTIVE_CODE.get(kind, 0)]) * min(1, body_len) + r.randbytes(max(0, body_len - 1))
                     if kind == "file_data":
                         body = r.randbytes(body_len)
